@@ -267,15 +267,18 @@ func (h *handle) Remove(fd storage.FileDesc) error {
 	if !storage.FileDescOk(fd) {
 		return storage.ErrInvalidFile
 	}
-	ok, code, err := h.event("ldb.remove", 0)
-	if !ok {
-		return err
+	// Not an I/O event: goleveldb deletes an obsolete table when the last reference to the old version is
+	// released, and whether that happens in the caller's goroutine (a managed task: would be logged and
+	// numbered) or in goleveldb's own compaction goroutine (unmanaged: never logged) depends on real
+	// scheduling. Counting it made event numbers and digests differ between identical runs. Deleting an
+	// obsolete file is no meaningful crash point (leftovers are swept at the next open).
+	if h.dead.Load() {
+		return errDead
 	}
 	h.st.mu.Lock()
 	_, exist := h.st.files[pack(fd)]
 	delete(h.st.files, pack(fd))
 	h.st.mu.Unlock()
-	h.after(code)
 	if !exist {
 		return os.ErrNotExist
 	}
